@@ -189,7 +189,19 @@ func main() {
 			os.RemoveAll(work)
 		}
 	}()
-	solveAll(obls, solveOpts{dir: work, secs: secs, thorough: *thorough, seed: seed, jobs: *jobs})
+	// obligations recorded as open known findings get a short budget: they are expected to fail
+	quickNames := map[string]bool{}
+	if data, err := os.ReadFile(filepath.Join(*verif, "known_findings.json")); err == nil {
+		var kfs []KnownFinding
+		if json.Unmarshal(data, &kfs) == nil {
+			for _, k := range kfs {
+				if k.Property == prop && k.Status == "open" {
+					quickNames[k.Obligation] = true
+				}
+			}
+		}
+	}
+	solveAll(obls, solveOpts{dir: work, secs: secs, thorough: *thorough, seed: seed, jobs: *jobs, short: quickNames})
 	tSolve := time.Since(t0) - tLoad - tGen
 
 	// group into logical obligations
